@@ -188,22 +188,47 @@ func init() {
 			for i := range c02StrSigma {
 				s = append(s, fmt.Sprintf("str:%d", i))
 			}
+			for i := range c02EscSigma {
+				for j := range c02EscSigma {
+					s = append(s, fmt.Sprintf("esc:%d:%d", i, j))
+				}
+			}
 			return s
 		},
 		Run:  c02Run,
 		Rule: "family A: every string over {< % > \\ = # a \" { \\n é} up to length L bare, and s1·TAG·s2 around each of 4 generated tags (|s1|<=3,|s2|<=2), compared with a left-to-right reference scanner that knows only the two escapes; templates whose reference scan meets a live <% that is not the generated tag are outside the grammar (totality only). Family B: <%= \"S\" %> / <%= `S` %> / let-bound / helper-argument string literals for every body S over {a \\ \" % > < # \\n é } space `} up to length L that the reference tokeniser closes at its own quote; expected = HTML-escape(denotation). Family C: every sequence of <=3 items from {text, output tag, 17 silent constructs (expression/let/assign/if/for/comment/line-comment/fn statements incl. values that are HTML)} in 7 placements (top, if, else, for, fn body, helper block, for+if); expected = the same sequence with silent items deleted. Non-trivial: contains an escape-relevant byte next to a boundary / a silent item.",
 		Bound: func(th bool) string {
 			if th {
-				return "A: bare |s|<=6, around |s1|<=3 |s2|<=2; B: |S|<=5; C: sequences <=3"
+				return "A: bare |s|<=6, around |s1|<=3 |s2|<=2, core alphabet {\\ < % a} bare |s|<=10 and before/around a tag |s|<=8; B: |S|<=5; C: sequences <=3"
 			}
-			return "A: bare |s|<=5, around |s1|<=3 |s2|<=1; B: |S|<=4; C: sequences <=3"
+			return "A: bare |s|<=5, around |s1|<=3 |s2|<=1, core alphabet {\\ < % a} bare |s|<=8 and before/around a tag |s|<=6; B: |S|<=4; C: sequences <=3"
 		},
 	})
 }
 
+// c02EscSigma: the escape-relevant core alphabet, explored to a greater length.
+var c02EscSigma = []string{"\\", "<", "%", "a"}
+
 func c02Run(t *engine.T, shard string) {
 	parts := strings.Split(shard, ":")
 	switch parts[0] {
+	case "esc":
+		var i, j int
+		fmt.Sscan(parts[1], &i)
+		fmt.Sscan(parts[2], &j)
+		L := 8
+		if t.Thorough {
+			L = 10
+		}
+		tag := c02Tags[0]
+		c02Strings(L-2, c02EscSigma, func(s string) {
+			src := c02EscSigma[i] + c02EscSigma[j] + s
+			c02Check(t, "esc-bare", src, nil, true)
+			if len(src) <= L-2 {
+				c02Check(t, "esc-around", src+tag.src, map[int]c02Tag{len(src): tag}, true)
+				c02Check(t, "esc-around2", src+tag.src+src, map[int]c02Tag{len(src): tag}, true)
+			}
+		})
 	case "bare":
 		var i int
 		fmt.Sscan(parts[1], &i)
